@@ -469,7 +469,7 @@ def show(n):
 # formula families
 # ----------------------------------------------------------------------------------------------------------------
 FREE, FIXED, VAR = ('free', 'zeta'), ('fixed', 'kappa'), ('var', 'x')
-NUMS = (2.0, -1.5, 0.5, 1.0, 3.0, 0.0, -2.0)
+NUMS = (2.0, -1.5, 0.5, 1.0, 3.0, 0.0, -2.0, 0.12345678901234)      # the last one needs all its digits in the signature
 
 
 def num_leaf(slot, rng=None):
@@ -492,7 +492,9 @@ for _op in BINARY:
 for _op in UNARY:
     KINDS[_op] = (1, (lambda op: lambda a: (op, a[0]))(_op), (None,))
 for _p, _how in ((2.0, 'float'), (2.0, 'int'), (3.0, 'ctor'), (0.5, 'float'), (-1.0, 'int'), (1.0, 'float'),
-                 (0.0, 'ctor'), (-1.5, 'float'), (2.5, 'ctor')):
+                 (0.0, 'ctor'), (-1.5, 'float'), (2.5, 'ctor'),
+                 # exponents that need all their digits (a serialisation that shortens them changes the engine's value)
+                 (1.0 / 3.0, 'float'), (12.3456789, 'ctor')):
     KINDS['PowerConstant[%s,%s]' % (_p, _how)] = (1, (lambda p, h: lambda a: ('PowerConstant', a[0], p, h))(_p, _how),
                                                   (None,))
 KINDS['BelongsTo{1,2,-3}'] = (1, lambda a: ('BelongsTo', a[0], (1, 2, -3)), (None,))
@@ -706,7 +708,7 @@ class Worker:
     def fail(self, clause, case, expected, got):
         key = clause + ' | ' + str(case.get('tag', case.get('formula', '')))[:60]
         self.hist[key] = self.hist.get(key, 0) + 1
-        if len(self.failures) < 10:
+        if self.hist[key] <= 2 and sum(1 for f_ in self.failures if f_) < 60:      # two records per kind of failure
             self.failures.append({'clause': clause, 'case': case, 'expected': expected, 'got': got})
         else:
             self.failures.append(None)
@@ -1278,6 +1280,20 @@ def worker_main(spec):
     print(json.dumps(result()))
 
 
+
+def _diverse(failures, cap=60):
+    """records of different kinds first (two per kind): a flood of one kind of failure must not hide another kind"""
+    seen, first, rest = {}, [], []
+    for f in failures:
+        if not f:
+            continue
+        c = f.get('case') if isinstance(f.get('case'), dict) else {}
+        k = (f.get('clause'), str(c.get('tag', c.get('part', c.get('formula', ''))))[:60])
+        seen[k] = seen.get(k, 0) + 1
+        (first if seen[k] <= 2 else rest).append(f)
+    return (first + rest)[:cap]
+
+
 def main():
     if len(sys.argv) >= 3 and sys.argv[1] == '--worker':
         worker_main(json.loads(sys.argv[2]))
@@ -1326,7 +1342,7 @@ def main():
     for k in sorted(hist)[:200]:
         print('FAIL', hist[k], k)
     print('elapsed %.1f s, worker respawns after engine errors: %d, failures in total: %d' % (time.time() - t0, respawns, nfail))
-    print(json.dumps({'cases': cases, 'bound': bound, 'failures': failures[:10]}))
+    print(json.dumps({'cases': cases, 'bound': bound, 'failures': _diverse(failures)}))
     return 0 if nfail == 0 else 1
 
 
